@@ -23,7 +23,7 @@ for pid in sorted(PROPS):
 out.append("\nNot applicable: none — every property has a logic core that M expresses; where part of the truth lives in the\n"
            "runtime (native stack bytes, process I/O, wasm, JSON-RPC) the MANIFEST `level_note` names the part that is only exercised.\n")
 out.append("\n---------------------------------------------------------------------------\n\n## 6. Seeded changes: which check catches which\n\n"
-           "Ninety-two changes (four per property in two rounds, twelve more in a third) were written by fresh sub-agents that saw only the property text and a\n"
+           "One hundred and twenty changes (six per property, in three rounds of two) were written by fresh sub-agents that saw only the property text and a\n"
            "scratch worktree (the second round was also told what the first had tried, so as not to repeat it); each compiles,\n"
            "passes the 153 existing tests, and comes with a demonstration that fails with the change and passes without it\n"
            "(confirmed here with `tools/confirm_seed.sh`).  They are kept under `seeded/<id>-<a..f>/` (`patch.diff`, demo,\n"
@@ -41,9 +41,17 @@ out.append("\n------------------------------------------------------------------
            "whole sessions in two spellings (C12); end-of-line text with trailing blanks (C15); algebraic predecessors of special\n"
            "generator states, RND inside RUN (C18); string-pool / STATS and 200..1000-line LIST scenarios on the page (C19).\n"
            "All eighty are now reported by the quick tier, most with a concrete failing input (the table says which).\n\n"
-           "Round 3 (`-e`, `-f`; six properties, told about both earlier rounds): 5 of 12 reported at once, 7 MISSED (C01-e, C01-f,\n"
-           "C03-e, C03-f, C08-e, C10-e, C11-e), and C11-f was first caught by one lucky random case and lost again when an\n"
-           "unrelated generator change shifted the random stream - detection by luck is not detection.  Added: non-ASCII\n"
+           "Round 3 (`-e`, `-f`; all twenty properties, told about both earlier rounds, asked for rare or structural triggers):\n"
+           "18 of 40 reported at once, 22 MISSED (C01-e, C01-f, C03-e, C03-f, C04-e, C04-f, C05-e, C05-f, C06-e, C06-f, C07-e,\n"
+           "C08-e, C09-e, C09-f, C10-e, C11-e, C13-f, C15-f, C16-f, C18-e, C18-f, C19-f, C20-e), and C11-f was first caught by\n"
+           "one lucky random case and lost again when an unrelated generator change shifted the random stream - detection by\n"
+           "luck is not detection.  Added in the second half: DATA bodies differing in the sign of a zero and numbers followed\n"
+           "by non-BASIC blanks (C04); non-ASCII blanks / a byte-order mark / numbers beyond u64 in front of file lines (C05,\n"
+           "C13, C20); fractional jump targets and definitions named like built-ins (C06); refused DEF and END typed at a\n"
+           "breakpoint (C07); statement counts known in advance with a turns-at-least oracle (C09); line numbers above 63999\n"
+           "(C15); GOSUB / FN typed at the prompt when stopped at the cap (C16); RND arguments that draw numbers, reseeding the\n"
+           "Web adapter while a program is suspended (C18); several documents open side by side under URIs differing in case\n"
+           "or escaping (C20).  Added in the first half: non-ASCII\n"
            "numerals where a line number is expected; nesting that passes through a user-function call around the cap;\n"
            "31..33 loops with distinct variables and a jump back into a FOR line; every run of PRINT separators at the end of\n"
            "the statement (reference interpreter extended); reply / break / RUN; edits inside C10 histories (mirrored in the\n"
